@@ -2350,3 +2350,89 @@ def np_min(interp, st, args, kwargs, node):
 
 
 LIBFUNCS.update({"np.max": np_max, "np.amax": np_max, "np.min": np_min, "np.amin": np_min})
+
+
+# ----------------------------------------------------------------------------- np.ndindex over a 3-d shape (row-major), np.random.shuffle
+class NdIndex:
+    """np.ndindex((D, R, C)): the index triples in row-major (C) order.  Element k is (nd3_d(k), nd3_x(k), nd3_y(k)); the solver sees these
+    functions and their inverse flat3 only through `nd3_axioms` (theorems of k = (d*R + x)*C + y, lemmas/Unravel.lean: nd3_*)."""
+
+    def __init__(self, dims):
+        self.dims = list(dims)
+
+
+_ND3 = None
+
+
+def nd3_fns():
+    global _ND3
+    if _ND3 is None:
+        I_ = z3.IntSort()
+        _ND3 = tuple(z3.Function(n, I_, I_, I_, I_) for n in ("nd3_d", "nd3_x", "nd3_y")) + (z3.Function("flat3", I_, I_, I_, I_, I_, I_),)
+    return _ND3
+
+
+def nd3_axioms(D, R, C):
+    fd, fx, fy, flat = nd3_fns()
+    D, R, C = to_z3(as_int(D)), to_z3(as_int(R)), to_z3(as_int(C))
+    N = D * R * C
+    k, d, x, y = (z3.Int(V.fresh_name(n)) for n in ("nk", "nd", "nx", "ny"))
+    b1_body = z3.Implies(z3.And(k >= 0, k < N), z3.And(fd(k, R, C) >= 0, fd(k, R, C) < D, fx(k, R, C) >= 0, fx(k, R, C) < R, fy(k, R, C) >= 0, fy(k, R, C) < C,
+                                                    flat(fd(k, R, C), fx(k, R, C), fy(k, R, C), R, C) == k))
+    b2 = z3.ForAll([d, x, y], z3.Implies(z3.And(d >= 0, d < D, x >= 0, x < R, y >= 0, y < C),
+                                         z3.And(flat(d, x, y, R, C) >= 0, flat(d, x, y, R, C) < N, fd(flat(d, x, y, R, C), R, C) == d,
+                                                fx(flat(d, x, y, R, C), R, C) == x, fy(flat(d, x, y, R, C), R, C) == y)), patterns=[flat(d, x, y, R, C)])
+    return [z3.ForAll([k], b1_body, patterns=[p]) for p in (fd(k, R, C), fx(k, R, C), fy(k, R, C))] + [b2, N >= 0]
+
+
+def np_ndindex(interp, st, args, kwargs, node):
+    shape = args[0] if len(args) == 1 and isinstance(args[0], (tuple, list)) else tuple(args)
+    if kwargs or len(shape) != 3:
+        raise Outside("np.ndindex over anything but a 3-d shape", node)
+    dims = [as_int(d) for d in shape]
+    if all(isinstance(d, int) for d in dims):
+        return [(a, b, c) for a in range(dims[0]) for b in range(dims[1]) for c in range(dims[2])]
+    _trust("np.ndindex(shape): every index tuple of the shape once, in row-major order")
+    for ax in nd3_axioms(*dims):
+        st.assume(ax)
+    return NdIndex(dims)
+
+
+def ndindex_len(nd):
+    M = _M()
+    return M.s_mul(M.s_mul(nd.dims[0], nd.dims[1]), nd.dims[2])
+
+
+def ndindex_item(nd, k):
+    fd, fx, fy, _ = nd3_fns()
+    R, C = to_z3(as_int(nd.dims[1])), to_z3(as_int(nd.dims[2]))
+    kz = to_z3(as_int(k))
+    return (fd(kz, R, C), fx(kz, R, C), fy(kz, R, C))
+
+
+def np_random_shuffle(interp, st, args, kwargs, node):
+    """np.random.shuffle(a) (in place, first axis): the rows of a in an unknown order - a'[k] == a[pi(k)] for a bijection pi of [0, n)
+    (trusted library contract; pi and its inverse are fresh function symbols)"""
+    M = _M()
+    if kwargs or len(args) != 1 or not isinstance(node, ast.Call):
+        raise Outside("np.random.shuffle with other arguments", node)
+    a = args[0]
+    if not isinstance(a, Grid):
+        raise Outside("np.random.shuffle of a non-array", node)
+    _trust("np.random.shuffle(a): permutes a along its first axis (a bijection of the row indices)")
+    n = to_z3(as_int(a.dims[0]))
+    pi = z3.Function(V.fresh_name("shuffle_pi"), z3.IntSort(), z3.IntSort())
+    inv = z3.Function(V.fresh_name("shuffle_inv"), z3.IntSort(), z3.IntSort())
+    k = z3.Int(V.fresh_name("pk"))
+    body = z3.Implies(z3.And(k >= 0, k < n), z3.And(pi(k) >= 0, pi(k) < n, inv(k) >= 0, inv(k) < n, inv(pi(k)) == k, pi(inv(k)) == k))
+    st.assume(z3.ForAll([k], body, patterns=[pi(k)]))
+    st.assume(z3.ForAll([k], body, patterns=[inv(k)]))
+    # every old row is somewhere in the new array: instantiated wherever an old row is mentioned
+    st.assume(z3.ForAll([k], body, patterns=[z3.Select(a.arr, k)]))
+    new = M.grid_lambda(a.dims, a.kind, lambda idx: a.select([pi(idx[0])] + list(idx[1:])), a.dtype)
+    new.shuffled_from = (a, pi, inv)
+    interp.assign(node.args[0], new, st)
+    return None
+
+
+LIBFUNCS.update({"np.ndindex": np_ndindex, "np.random.shuffle": np_random_shuffle})
